@@ -1199,10 +1199,11 @@ def run(ctx):
                         if any(esc.is_sub('ValueError', t) for t in ts):
                             raised = [r for r in ast.walk(h) if isinstance(r, ast.Raise) and r.exc is not None]
                             ok = bool(raised) and all(any(esc.is_sub(repo.canon_exc(f.module, (r.exc.func if isinstance(r.exc, ast.Call) else r.exc)) or '', hh)
-                                                          for hh in handled) for r in raised)
+                                                          for hh in handled) for r in raised) and U.all_paths_raise(h.body)
             ck.expect(ok, 'C09-D3', f.qual, '%s: ValueError -> ProtocolError' % norm_text(c),
-                      'an over-long line makes StreamReader.readline raise ValueError here and nothing converts it '
-                      '(the header reader and the chunk-size reader do): bare ValueError ends the crawl', f.loc(c))
+                      'an over-long line makes StreamReader.readline raise ValueError here and it is not converted on every path of the '
+                      'handler (the header reader and the chunk-size reader do): a bare ValueError ends the crawl, and a handler that carries '
+                      'on reads from a stream whose buffer StreamReader has cut at an arbitrary, segmentation-dependent point', f.loc(c))
     if n_rl < 5:
         ck.bad('C09-D3', 'wpull.protocol', 'connection.readline() sites', 'only %d readline sites found (expected >= 5)' % n_rl)
     n_z = 0
